@@ -24,6 +24,7 @@ def families(tier, F):
         ("cp2f", fs.sync_consts(4, F=3, ForkAt=0, CpHs=(2, 4), Cap=3, MaxEnv=6, Findings=F, Emit="paths", Scenario="two checkpoints, a node on a branch contradicting the first")),
         ("forb", fs.sync_consts(3, F=2, ForkAt=1, CpHs=(1,), Cap=4, Forbid=(4,), MaxEnv=6, Findings=F, Emit="paths", Scenario="forbidden header on a fork branch")),
         ("cptip", fs.sync_consts(5, CpHs=(5,), Cap=2, MaxEnv=5, Findings=F, Emit="paths", Scenario="last checkpoint at the honest tip")),
+        ("raw", fs.sync_consts(5, F=2, ForkAt=3, CpHs=(2, 4), Cap=4, MaxEnv=5, MaxRaw=2, Findings=F, Emit="paths", Scenario="nodes that ignore the stop hash; a branch contradicting the second checkpoint")),
         ("rst", fs.sync_consts(5, CpHs=(2, 4), Cap=2, Peers=(1,), MaxConnects=3, MaxRestarts=1, MaxEnv=7, Findings=F, Emit="paths", Scenario="restart on a partially synced database, two checkpoints")),
     ]
     if not q:
@@ -39,6 +40,7 @@ def exp_families(tier, F):
         ("xa", fs.exp_consts(5, CpHs=(2, 4), Cap=2, MaxEnv=6, Findings=F, Emit="paths", Scenario="experimental: two checkpoints, cap 2")),
         ("xb", fs.exp_consts(4, CpHs=(), Cap=3, MaxEnv=6, Findings=F, Emit="paths", Scenario="experimental: no checkpoints")),
         ("xc", fs.exp_consts(3, F=3, ForkAt=0, CpHs=(2,), Cap=4, MaxEnv=5, Findings=F, Emit="paths", Scenario="experimental: node on a branch contradicting the checkpoint")),
+        ("xr", fs.exp_consts(5, F=2, ForkAt=3, CpHs=(2, 4), Cap=4, MaxEnv=5, MaxRaw=2, Findings=F, Emit="paths", Scenario="experimental: node ignoring the stop hash; branch contradicting the second checkpoint")),
         ("xd", fs.exp_consts(3, F=2, ForkAt=1, CpHs=(1,), Cap=4, Forbid=(4,), MaxEnv=6, Findings=F, Emit="paths", Scenario="experimental: forbidden header on a fork branch")),
     ]
     if not q:
@@ -51,7 +53,8 @@ def exp_families(tier, F):
 def sync_run(prop, tier, seed, kinds, replay_path):
     rigbin = build_rig()
     rng = random.Random(seed)
-    listed = {f["deviation"]: f for f in c.findings_for("C06") if f.get("deviation")}
+    # the specification follows every listed finding of the sync engines (C06 and C07); each check reports its own
+    listed = {f["deviation"]: f for f in c.findings_for("C06") + c.findings_for("C07") if f.get("deviation")}
     F = tuple(sorted(listed))
     runs, aggs, gen = [], [], {}
     if replay_path:
@@ -123,11 +126,12 @@ def verdict(prop, agg, runs, kinds, listed, gen):
         beh = fc.behaviour_at(m["shard"], m["line"])
         viol.append(("%s: expected %s, got %s" % (m["kind"], m["exp"], m["got"]), {"family": "sync", "engine": m.get("engine", "legacy"), "behaviour": beh, "mismatch": m}))
     st = agg["stats"]
-    if prop == "C06":
-        for dev, f in sorted(listed.items()):
-            n = st.get("finding-witness:" + dev, 0)
-            if n:
-                known.append("%s [%d replayed behaviours end behind the best chain offered for this reason, on the specification AND on the real engine]" % (f["what"], n))
+    for dev, f in sorted(listed.items()):
+        n = st.get("finding-witness:" + dev, 0)
+        if n and f["property"] == prop == "C06":
+            known.append("%s [%d replayed behaviours end behind the best chain offered for this reason, on the specification AND on the real engine]" % (f["what"], n))
+        elif n and f["property"] == prop:
+            known.append("%s [witnessed in %d replayed behaviours, on the specification AND on the real engine]" % (f["what"], n))
     if drift:
         notes.append("model drift: in %d behaviours the engine asked/answered differently from Sync.tla without affecting the outcome checked here (see evidence)" % st.get("drifted-behaviours", drift))
     if st.get("outcomes", 0) == 0 and gen:
